@@ -463,7 +463,8 @@ class Lab:
         )
         results = coordinator.run(tasks)
         # Return results in the same order as tasks
-        return {task: results[task] for task in tasks}
+        # Failed tasks have no result to return.
+        return {task: results[task] for task in tasks if task in results}
 
     def run_task(self, task: Task[ResultT], **kwargs) -> ResultT:
         """Run a single task and return its result. Supports the same keyword
